@@ -325,7 +325,7 @@ def _deliver(transport, target, cdb, dataout, xfer_in, extra):
     f = W.take_fault(("sense_payload",)) if status is None else None
     if f is not None:
         status = 0x02
-        sense = bytes.fromhex(f["sense"])
+        sense = None if f.get("no_sense") else bytes.fromhex(f["sense"])     # no_sense: autosense failed, the binding has no sense data
         datain = b""
         applied = "sense_payload"
     if status is None:
@@ -524,7 +524,7 @@ def make_iscsi():
             if err is not None:
                 raise err
             task.status = status
-            if status == 0x02:
+            if status == 0x02 and sense is not None:
                 task._sense = bytearray(sense) if WORLD.flags.get("iscsi_sense_bytearray") else bytes(sense)
             if datain and data_in is not None:
                 n = min(len(datain), len(data_in), task.xferlen)
